@@ -550,6 +550,26 @@ def check_fmthistory(case):
         if a != b:
             return {"key": "formatinfo-mutable-culture-stale",
                     "what": f"a mutable clone of {name!r} customised AFTER a lookup answers {a}; customised without an earlier lookup: {b}"}
+        a = c13_fmt.readonly_snapshot_scenario(name, True)
+        b = c13_fmt.readonly_snapshot_scenario(name, False)
+        if a != b:
+            return {"key": "read-only-snapshot-stale",
+                    "what": f"a mutable clone of {name!r}: CultureInfo.read_only() taken after customising answers {a} when a read-only view had been "
+                            f"taken and used before the customisation; without that earlier view: {b}"}
+    # pattern texts a cache key might identify: created in both orders, each order in its own fresh interpreter
+    for name in [n for n in seq if n][:1]:
+        res = []
+        for order in (0, 1):
+            p = subprocess.run([sys.executable, os.path.join(here, "c13_fmt.py"), "near", name, str(order)], capture_output=True, text=True, timeout=120,
+                               env=dict(os.environ, PYODA_REPO=str(common_repo())))
+            if p.returncode != 0:
+                raise RuntimeError("child interpreter failed: " + p.stderr[-300:])
+            res.append(json.loads(p.stdout))
+        if res[0] != res[1]:
+            k = [k for k in res[0] if res[0][k] != res[1].get(k)][0]
+            return {"key": "pattern-meaning-depends-on-earlier-pattern",
+                    "what": f"culture {name!r}, pattern {k!r}: {res[0][k]} when created before its near twin, {res[1][k]} when created after it "
+                            f"(near twins: {[(a, b) for _, a, b in c13_fmt.NEAR_PATTERNS if k.split('|', 1)[1] in (a, b)]})"}
     return None
 
 
